@@ -550,19 +550,15 @@ func (c *Client) processConnack(connack *packet.Connack) error {
 		return err
 	}
 
-	// set state to connected
-	atomic.StoreUint32(&c.state, clientConnected)
-
-	// complete future
-	c.connectFuture.Complete(connack)
-
 	// retrieve stored packets
 	packets, err := c.Session.AllPackets(session.Outgoing)
 	if err != nil {
+		c.connectFuture.Complete(connack)
 		return c.die(err, true)
 	}
 
-	// resend stored packets
+	// resend stored packets before new requests are admitted, so that they
+	// cannot be overtaken by packets that have been sent after them
 	for _, pkt := range packets {
 		// check for publish packets
 		publish, ok := pkt.(*packet.Publish)
@@ -574,9 +570,16 @@ func (c *Client) processConnack(connack *packet.Connack) error {
 		// resend packet
 		err = c.send(pkt, true)
 		if err != nil {
+			c.connectFuture.Complete(connack)
 			return c.die(err, false)
 		}
 	}
+
+	// set state to connected unless the client has been closed in the meantime
+	atomic.CompareAndSwapUint32(&c.state, clientConnacked, clientConnected)
+
+	// complete future
+	c.connectFuture.Complete(connack)
 
 	return nil
 }
